@@ -113,6 +113,7 @@ struct Case {
     bool allow = false;
     std::string last_script;
     bool setup = false;
+    bool tx_ok = true, ti_ok = true;   // btcdeb exits when --tx / --txin cannot be parsed
     ~Case() { delete inst; }
 };
 
@@ -339,6 +340,7 @@ int main(int argc, char** argv) {
                 std::string a = unhxs(t[1]);
                 bool ok = false; std::string ex;
                 try { ok = c->inst->parse_transaction(a.c_str(), true); } catch (const std::exception& e) { ex = e.what(); }
+                c->tx_ok = ok;
                 emit_capture();
                 std::string am;
                 for (auto v : c->inst->amounts) { if (!am.empty()) am += ","; am += std::to_string(v); }
@@ -351,6 +353,7 @@ int main(int argc, char** argv) {
                 int sel = t.size() > 2 ? atoi(t[2].c_str()) : -1;
                 bool ok = false; std::string ex;
                 try { ok = c->inst->parse_input_transaction(a.c_str(), sel); } catch (const std::exception& e) { ex = e.what(); }
+                c->ti_ok = ok;
                 emit_capture();
                 fprintf(EV, "TI %d %s %lld %lld\n", ok ? 1 : 0, exc_class(ex).c_str(), (long long)c->inst->txin_index, (long long)c->inst->txin_vout_index);
                 fflush(EV);
@@ -380,6 +383,9 @@ int main(int argc, char** argv) {
                 auto scr = unhx(t[3]);
                 c->inst->tce = new TaprootCommitmentEnv(unhx(t[1]), unhx(t[2]), CScript(scr.begin(), scr.end()), &c->inst->execdata.m_tapleaf_hash);
                 c->inst->execdata.m_tapleaf_hash_init = true;
+            }
+            else if ((cmd == "CF" || cmd == "SU") && !(c->tx_ok && c->ti_ok)) {
+                fprintf(EV, "NOTX %s\n", cmd.c_str()); fflush(EV);   // the real tool has already exited with status 1
             }
             else if (cmd == "CF") {
                 bool ok = false; std::string ex;
